@@ -70,6 +70,24 @@ impl<'a> std::io::Read for ChunkReader<'a> {
     }
 }
 
+/// A reader that delivers `data` and then fails with an I/O error (a connection that resets, a file that vanishes).
+pub struct BrokenReader<'a> {
+    pub data: &'a [u8],
+    pub pos: usize,
+}
+
+impl<'a> std::io::Read for BrokenReader<'a> {
+    fn read(&mut self, buf: &mut [u8]) -> std::io::Result<usize> {
+        if self.pos >= self.data.len() {
+            return Err(std::io::Error::new(std::io::ErrorKind::ConnectionReset, "connection reset"));
+        }
+        let n = 3.min(buf.len()).min(self.data.len() - self.pos);
+        buf[..n].copy_from_slice(&self.data[self.pos..self.pos + n]);
+        self.pos += n;
+        Ok(n)
+    }
+}
+
 pub fn channels<T: DeserializeOwned + PartialEq + Debug>(text: &str, chunk: usize) -> Vec<(&'static str, Result<T, String>)> {
     let mut out: Vec<(&'static str, Result<T, String>)> = vec![];
     out.push(("from_str", serde_json::from_str::<T>(text).map_err(|e| e.to_string())));
@@ -173,7 +191,7 @@ impl Property for C17 {
         "Generated: valid documents of every public type (signed block, metadata wrapper, layout, link, key, signature, rule, step, \
          inspection, statement, predicate; through the hook also LinkV02, SLSA v0.1/v0.2, both statement types, TimeStamp, envelope file), \
          a share of them with one tree edit (often invalid), rendered with random member order, whitespace and per-character escape \
-         spelling (e.g. \\u0043REATE), optionally truncated or followed by trailing bytes (junk, whitespace, a second document); no duplicate member names. Oracle: serde_json::from_str, from_slice, from_reader \
+         spelling (e.g. \\u0043REATE), optionally truncated or followed by trailing bytes (junk, whitespace, a second document); no duplicate member names. History: in the cases with an odd chunk size an earlier Json::from_reader / JsonPretty::from_reader call in the same process broke off with an I/O error after delivering the first half of the text. Oracle: serde_json::from_str, from_slice, from_reader \
          (reader returning 1-7 bytes per call), from_str::<Value>+from_value, Json::from_slice, Json::from_reader, Json::deserialize are all \
          Err or all Ok with equal values. Non-trivial: accepted by at least one channel; distinct by (type, document, spelling)."
             .into()
@@ -219,6 +237,14 @@ impl Property for C17 {
             o.class("trailing-bytes");
         }
         let chunk = spec.chunk as usize;
+        if spec.chunk % 2 == 1 {
+            // history: an earlier read through the reader channel broke off with an I/O error after
+            // delivering the first half of this text (both reader entry points)
+            let half = &text.as_bytes()[..text.len() / 2];
+            let _ = Json::from_reader::<_, Value>(BrokenReader { data: half, pos: 0 });
+            let _ = in_toto::interchange::JsonPretty::from_reader::<_, Value>(BrokenReader { data: half, pos: 0 });
+            o.class("after-an-interrupted-read");
+        }
         use in_toto::crypto::{PublicKey, Signature};
         use in_toto::models::inspection::Inspection;
         use in_toto::models::rule::ArtifactRule;
